@@ -3,31 +3,38 @@ From KV Require Import Guards GuardsProofs.
 From KV Require PathSan PresentLine.
 Open Scope N_scope.
 
-(** For every file system [fs], error pages [errpage] and byte string [secret] such that the secret
-    occurs in [fs] only inside guarded files (named [*.private], or whose [!> ] line has [hide] or
-    [allow-ips]) and not in the error pages (which carry no [!> ] line):
+(** For every file system [fs], error pages [errpage], template engine [tmpl] and byte string [secret] such
+    that the secret occurs in [fs] only inside guarded files (named [*.private], or whose [!> ] line has [hide] or
+    [allow-ips]), not in the error pages (which may carry a [!> ] line of their own), is not introduced by a
+    template ([!> tmpl], also on an error page) and is not part of the CORS denial text:
     for EVERY history of requests, page clears, clear-all and waits from the empty cache — any raw
-    (percent-encoded) paths, queries, methods, headers (Accept-Encoding, Range, If-Modified-Since, vary
-    headers), client addresses, in any order — with the response cache on or off, any content
-    negotiation outcome, any vary rules and any URI rewriting [prime] by Prime extensions (identity on a host
-    without them; "Expand . and /" on a default host; kvarn hands the client address to the pipeline beside
-    the request, a Prime extension cannot change it), a reply whose body sent or identity body contains the
-    secret answers a request whose (rewritten) decoded path is a file marked [allow-ips], neither hidden nor private, and
-    whose client address is listed by every [allow-ips] directive of that file. *)
+    (percent-encoded) paths, queries, methods, headers (Accept-Encoding, Range, If-Modified-Since, Origin, vary
+    headers), client addresses (every IPv4 and IPv6 address), in any order — with the response cache on or off,
+    any status filter of the host, any content negotiation outcome, any vary rules, any URI rewriting [prime] and
+    any internal override URI [override] by Prime extensions (identity / none on a host without them; "Expand . and /"
+    and the CORS denial on a default host; kvarn hands the client address to the pipeline beside
+    the request, a Prime extension cannot change it), whether or not the later repairs of the cache layer are in
+    ([fix_ovkey] ... [fix_ims]; the admission test of [handle_vary_missing] is), a reply whose body sent or identity
+    body contains the secret answers a request whose (rewritten) decoded path is a file marked [allow-ips], neither
+    hidden nor private, and whose client address is listed by every [allow-ips] directive of that file. *)
 Theorem guarded_content_confined :
-  forall (fs : bytes -> option bytes) (errpage : N -> bytes) (secret : bytes),
+  forall (fix_errline cors : bool) (fs : bytes -> option bytes) (errpage : N -> bytes)
+         (tmpl : list bytes -> bytes -> bytes) (secret : bytes),
     (forall t c, fs t = Some c -> contains_sub secret c = true -> guarded t c = true) ->
     (forall s, contains_sub secret (errpage s) = false) ->
-    (forall s, PresentLine.present_parse (errpage s) = Ok None) ->
-  forall cache_on ims_on parse_ims prime refuses vary_tuple vary_header now ops,
+    (forall args b, contains_sub secret (tmpl args b) = true -> contains_sub secret b = true) ->
+    (cors = true -> contains_sub secret (ps_body cors_pst) = false) ->
+  forall cache_on ims_on fix_ovkey fix_clear fix_svary fix_qmkey fix_ims sfilter parse_ims prime override refuses
+         vary_tuple vary_header clear_alias now ops,
     Forall2 (reply_ok fs secret prime) ops
-      (run_g true true fs errpage cache_on ims_on parse_ims prime refuses vary_tuple vary_header [] now ops).
+      (run_g true true fix_errline cors fs errpage tmpl cache_on ims_on fix_ovkey fix_clear fix_svary fix_qmkey fix_ims
+             sfilter parse_ims prime override refuses vary_tuple vary_header clear_alias [] now ops).
 Proof. exact guarded_content_confined_lemma. Qed.
 
 (** [reply_ok] spelled out: never for [hide] / [*.private], only to listed addresses for [allow-ips] *)
 Theorem reply_ok_meaning : forall fs secret prime r0 rp lg,
-  reply_ok fs secret prime (OReq r0) (ObReply rp lg) -> let r := prime r0 in
-  contains_sub secret (rp_body rp) = true \/ contains_sub secret (rp_identity rp) = true ->
+  reply_ok fs secret prime (XReq r0) (XbReply rp lg) -> let r := prime r0 in
+  contains_sub secret (rx_body rp) = true \/ contains_sub secret (rx_identity rp) = true ->
   exists t c, served_file (rq_path r) = Ok (Some t) /\ fs t = Some c /\
               is_private t = false /\ has_name N_HIDE (entries_of c) = false /\
               has_name N_ALLOW (entries_of c) = true /\ listed (rq_addr r) (entries_of c) = true.
@@ -38,6 +45,21 @@ Proof. exact reply_ok_meaning_lemma. Qed.
 Theorem range_of_clean_body_clean : forall secret lo hi body,
   contains_sub secret (slice lo hi body) = true -> contains_sub secret body = true.
 Proof. exact contains_sub_slice. Qed.
+
+(** ... in every history: whatever byte range of whatever reply is sent, it contains the secret only for a permitted request *)
+Theorem ranged_reply_confined :
+  forall (fix_errline cors : bool) (fs : bytes -> option bytes) (errpage : N -> bytes)
+         (tmpl : list bytes -> bytes -> bytes) (secret : bytes),
+    (forall t c, fs t = Some c -> contains_sub secret c = true -> guarded t c = true) ->
+    (forall s, contains_sub secret (errpage s) = false) ->
+    (forall args b, contains_sub secret (tmpl args b) = true -> contains_sub secret b = true) ->
+    (cors = true -> contains_sub secret (ps_body cors_pst) = false) ->
+  forall cache_on ims_on fix_ovkey fix_clear fix_svary fix_qmkey fix_ims sfilter parse_ims prime override refuses
+         vary_tuple vary_header clear_alias now ops,
+    Forall2 (ranged_ok fs secret prime) ops
+      (run_g true true fix_errline cors fs errpage tmpl cache_on ims_on fix_ovkey fix_clear fix_svary fix_qmkey fix_ims
+             sfilter parse_ims prime override refuses vary_tuple vary_header clear_alias [] now ops).
+Proof. exact ranged_reply_confined_lemma. Qed.
 
 (** every percent-encoded spelling: any subset of positions encoded, each hex digit in either case,
     denotes the same decoded path (a literal '%' has to be encoded itself) ... *)
@@ -53,31 +75,121 @@ Theorem ext_lookup_spelling_independent : forall p p' t,
   served_file p' = Ok (Some t) /\ private_hit true p = is_private t /\ private_hit true p' = is_private t.
 Proof. exact ext_lookup_spelling_independent_lemma. Qed.
 
+(** ... which is the request path decoded exactly ONCE ([%252E] is not a dot) *)
+Theorem single_decode_only : forall p t,
+  served_file p = Ok (Some t) -> PathSan.percent_decode p = 47 :: t.
+Proof. exact single_decode_only_lemma. Qed.
+
+(** an [allow-ips] argument lists exactly the address it parses to ([IpAddr::from_str]); the address compared is the one
+    kvarn's accept loop hands to the pipeline ([rq_addr]: no request header is consulted), and an IPv4 client matches
+    no IPv6 argument and vice versa (an IPv4-mapped client [::ffff:a.b.c.d] is not on an IPv4 list) *)
+Theorem listed_is_exact : forall addr arg,
+  arg_matches addr arg = true <-> parse_ip arg = Some (ip_of_addr addr).
+Proof. exact listed_is_exact_lemma. Qed.
+Theorem address_families_disjoint : forall addr arg,
+  arg_matches addr arg = true ->
+  match parse_ip arg with
+  | Some (IPv4 _) => addr < V6_BASE
+  | Some (IPv6 _) => V6_BASE <= addr
+  | None => False
+  end.
+Proof. exact address_families_disjoint_lemma. Qed.
+
 (** [allow-ips] forces the server cache preference None for every answer of the file, whatever
-    [cache] directives stand on the line, so no answer of such a file is ever stored *)
+    [cache] directives stand on the line, so no answer of such a file is ever admitted to the cache *)
 Theorem allow_ips_never_stored :
-  forall (fs : bytes -> option bytes) (errpage : N -> bytes),
-    (forall s, PresentLine.present_parse (errpage s) = Ok None) ->
-  forall r ok t c cache_on,
+  forall (fix_errline cors : bool) (fs : bytes -> option bytes) (errpage : N -> bytes) (tmpl : list bytes -> bytes -> bytes)
+         r ov t c cache_on sfilter,
     served_file (rq_path r) = Ok (Some t) -> fs t = Some c -> is_hidden t c = false -> is_allow_ips c = true ->
-    get_or_head (rq_method r) = true ->
-    f_spref (layer_b true true fs errpage r ok) = SP_NONE /\
-    may_store cache_on (rq_method r) (layer_b true true fs errpage r ok) = false.
+    get_or_head (rq_method r) = true -> (cors && is_cors_fail ov) = false ->
+    f_spref (layer_b true true fix_errline cors fs errpage tmpl r ov true) = SP_NONE /\
+    may_store_x cache_on sfilter (rq_method r) (plain (layer_b true true fix_errline cors fs errpage tmpl r ov true)) = false.
 Proof. exact allow_ips_never_stored_lemma. Qed.
 
-(** "the answer is the host's 404": for a GET/HEAD of a readable file that is hidden / private, or
-    marked [allow-ips] without listing the client address, the layer below the cache answers status 404
-    with the host's 404 page (whatever the spelling of the path) *)
+(** "the answer is the host's 404", below the cache: for a GET/HEAD of a readable file that is hidden / private, or
+    marked [allow-ips] without listing the client address, the answer has status 404 and the body of the host's
+    404 page as a client sees it for a path that does not exist ([errors/404.html] without its [!> ] line, else the
+    hard-coded page), whatever the spelling of the path (the 404 page is not a template and the file's line has
+    no [tmpl] directive) *)
 Theorem guarded_answer_is_404 :
-  forall (fs : bytes -> option bytes) (errpage : N -> bytes) r t c,
+  forall (cors : bool) (fs : bytes -> option bytes) (errpage : N -> bytes) (tmpl : list bytes -> bytes -> bytes),
+    first_tmpl (entries_of (errpage 404)) = None ->
+  forall r ov t c,
     served_file (rq_path r) = Ok (Some t) -> fs t = Some c -> get_or_head (rq_method r) = true ->
-    (exists parsed, PresentLine.present_parse c = Ok parsed) ->
+    (cors && is_cors_fail ov) = false -> has_name N_TMPL (entries_of c) = false ->
     is_hidden t c = true \/ listed (rq_addr r) (entries_of c) = false ->
-    f_status (layer_b true true fs errpage r true) = 404 /\
-    f_body (layer_b true true fs errpage r true) = errpage 404.
+    f_status (layer_b true true true cors fs errpage tmpl r ov true) = 404 /\
+    f_body (layer_b true true true cors fs errpage tmpl r ov true) = host_404_body errpage.
 Proof. exact guarded_answer_is_404_lemma. Qed.
 
-(** The statement is false of the code before the repairs (models selected by the two switches):
+(** "the answer is the host's 404", above the cache, for EVERY history (requests of any clients, clears, waits, from
+    the empty cache; cache on or off; any negotiation, vary rules, rewriting Prime extensions; overrides are internal
+    URIs ["/./..."]; no error page is a [!> tmpl] template; the status filter keeps 400 and 416 out of the cache as
+    the default one does): the reply to a request that has to be refused — it passes sanitize, is not overridden,
+    its (rewritten) path names a readable file that is hidden / private, or marked [allow-ips] without listing the
+    client's address — is the host's 404 (status 404; body sent and identity body are the 404 page as served for a path
+    that does not exist), or 304 Not Modified for a conditional request when that 404 is in the cache, or 406 when the
+    client accepts no representation.  In particular a cached answer of ANOTHER client is never used. *)
+Theorem refused_reply_is_404 :
+  forall (cors : bool) (fs : bytes -> option bytes) (errpage : N -> bytes) (tmpl : list bytes -> bytes -> bytes)
+         (sfilter : N -> bool) (prime : request -> request) (override : request -> option (bytes * option bytes)),
+    (forall s, has_name N_TMPL (entries_of (errpage s)) = false) ->
+    sfilter 400 = true /\ sfilter 416 = true ->
+    (forall r0 p q, override r0 = Some (p, q) -> starts_with INTERNAL p = true) ->
+  forall cache_on ims_on fix_clear fix_svary fix_qmkey fix_ims parse_ims refuses vary_tuple vary_header clear_alias now ops,
+    Forall2 (refused_ok fs errpage prime override) ops
+      (run_g true true true cors fs errpage tmpl cache_on ims_on true fix_clear fix_svary fix_qmkey fix_ims
+             sfilter parse_ims prime override refuses vary_tuple vary_header clear_alias [] now ops).
+Proof. exact refused_reply_is_404_lemma. Qed.
+
+(** ... and no history tells whether a hidden file exists: on a host whose error pages carry no [!> ] line, removing
+    files that are hidden / private and whose line carries nothing but [hide] (and names that are not mounted)
+    changes NO observation of any history from any cache content — status, headers, bodies, last-modified,
+    cache hit or not — for every client, spelling, method, Range, Accept-Encoding outcome and configuration. *)
+Theorem hidden_file_indistinguishable_from_absent :
+  forall (cors : bool) (fs fs' : bytes -> option bytes) (errpage : N -> bytes) (tmpl : list bytes -> bytes -> bytes),
+    (forall s, line_of (errpage s) = None) ->
+    (forall x, fs' x = fs x \/ (fs' x = None /\ exists c, fs x = Some c /\ plain_hidden x c)) ->
+  forall cache_on ims_on fix_ovkey fix_clear fix_svary fix_qmkey fix_ims sfilter parse_ims prime override refuses
+         vary_tuple vary_header clear_alias c now ops,
+    run_g true true true cors fs errpage tmpl cache_on ims_on fix_ovkey fix_clear fix_svary fix_qmkey fix_ims
+          sfilter parse_ims prime override refuses vary_tuple vary_header clear_alias c now ops =
+    run_g true true true cors fs' errpage tmpl cache_on ims_on fix_ovkey fix_clear fix_svary fix_qmkey fix_ims
+          sfilter parse_ims prime override refuses vary_tuple vary_header clear_alias c now ops.
+Proof. exact hidden_file_indistinguishable_lemma. Qed.
+
+(** "whether or not ... file caches are enabled": the server with its file cache as state ([run_gf]: a map from the path
+    text to the content or to "no such file"; [read::file] consults it, [read::file_cached] also fills it) — for every
+    initial content of the file cache (also stale and negative entries), file cache on or off, and whatever reads fill
+    it — is observed in every history exactly as the server without file cache whose files are what the server HOLDS
+    for each path: the cache entry if there is one, else the disk. *)
+Theorem file_cache_transparent :
+  forall fix_ext fix_lock fix_errline cors on disk reads fc0
+         cache_on ims_on fix_ovkey fix_clear fix_svary fix_qmkey fix_ims sfilter parse_ims prime override refuses
+         vary_tuple vary_header clear_alias c now ops,
+    let held := fc_view on disk fc0 in
+    run_gf fix_ext fix_lock fix_errline cors on disk reads fc0 cache_on ims_on fix_ovkey fix_clear fix_svary fix_qmkey fix_ims
+           sfilter parse_ims prime override refuses vary_tuple vary_header clear_alias c now ops =
+    run_g fix_ext fix_lock fix_errline cors (fs_of held) (errpage_of held) (tmpl_of held) cache_on ims_on fix_ovkey fix_clear
+          fix_svary fix_qmkey fix_ims sfilter parse_ims prime override refuses vary_tuple vary_header clear_alias c now ops.
+Proof. exact file_cache_transparent_lemma. Qed.
+
+(** ... hence the property with the file cache in the picture ("content of a file" = the content the server holds for it) *)
+Theorem guarded_content_confined_with_file_cache :
+  forall (fix_errline cors on : bool) (disk : bytes -> option bytes) reads (fc0 : fcache) (secret : bytes),
+    let held := fc_view on disk fc0 in
+    (forall t c, fs_of held t = Some c -> contains_sub secret c = true -> guarded t c = true) ->
+    (forall s, contains_sub secret (errpage_of held s) = false) ->
+    (forall args b, contains_sub secret (tmpl_of held args b) = true -> contains_sub secret b = true) ->
+    (cors = true -> contains_sub secret (ps_body cors_pst) = false) ->
+  forall cache_on ims_on fix_ovkey fix_clear fix_svary fix_qmkey fix_ims sfilter parse_ims prime override refuses
+         vary_tuple vary_header clear_alias now ops,
+    Forall2 (reply_ok (fs_of held) secret prime) ops
+      (run_gf true true fix_errline cors on disk reads fc0 cache_on ims_on fix_ovkey fix_clear fix_svary fix_qmkey fix_ims
+              sfilter parse_ims prime override refuses vary_tuple vary_header clear_alias [] now ops).
+Proof. exact guarded_content_confined_fcache_lemma. Qed.
+
+(** The statement is false of the code before the repairs (models selected by the switches):
     (a) extension lookup on the raw path: [GET /secret%2Eprivate], cache on or off; *)
 Theorem private_spelling_v0_refuted :
   forall cache_on, violates w_fs W_SECRET [w_get (B "/secret%2Eprivate") 2]
@@ -88,25 +200,69 @@ Theorem cache_directive_v0_refuted :
   violates w_fs W_SECRET [w_get (B "/ac.txt") 1; w_get (B "/ac.txt") 2]
                          (w_run true false true [w_get (B "/ac.txt") 1; w_get (B "/ac.txt") 2]).
 Proof. exact cache_directive_v0_refuted_lemma. Qed.
+(** (c) the 404 that replaced a guarded file kept the [!> ] line of [errors/404.html]: the answers for a private file
+    and for an [allow-ips] file (other address) differ from the answer for a path that does not exist; repaired: equal *)
+Theorem error_page_line_v0_refuted :
+  exists b1 b2 b3, w_bodies (w_run_err w_err_line true true false true w_twins) = [(404, b1); (404, b2); (404, b3)] /\
+                   b1 <> b2 /\ b3 <> b2.
+Proof. exact error_page_line_v0_refuted_lemma. Qed.
+(** KNOWN classes (not repaired; the check reports them as known findings):
+    (d) tmpl-names-guarded-file: the argument of [!> tmpl] is joined to [<host>/templates/] unchecked; a PUBLIC page
+        that names [../public/s.private] is served with a block of the private file — on the concrete template engine
+        (Model/Templates.v over the fixture tree) the main statement fails; [guarded_content_confined] therefore
+        assumes that templates introduce no guarded content; *)
+Theorem tmpl_names_guarded_file_refuted :
+  violates (fs_of_tree (tree_of w_tmpl_files)) W_SECRET [w_get (B "/t.html") 2]
+           (run_gcfg true true true w_tmpl_cfg [w_get (B "/t.html") 2]).
+Proof. exact tmpl_names_guarded_file_refuted_lemma. Qed.
+(** (e) allow-ips-404-template-unrendered: when [errors/404.html] is a [!> tmpl] template, [hide] renders it, [allow-ips]
+        does not: a file with [!> hide &> allow-ips ...] answers an unlisted client with the unrendered page, which is
+        not the answer for a path that does not exist ([refused_reply_is_404] assumes no error page is a template) *)
+Theorem allow_404_template_refuted :
+  exists b1 b2, w_bodies (w_run_gen w_err_tmpl w_render true true true true w_both_twins) = [(404, b1); (404, b2); (404, b2)] /\ b1 <> b2.
+Proof. exact allow_404_template_refuted_lemma. Qed.
 Theorem violates_contradicts_confined : forall fs secret ops obs,
   violates fs secret ops obs -> ~ Forall2 (reply_ok fs secret (fun r => r)) ops obs.
 Proof. exact violates_not_ok. Qed.
 
 (** non-vacuity: a host with one file of each kind meets the hypotheses; on it the listed address
-    receives the content (status, leaks, permitted) and nobody else does, for several spellings *)
+    receives the content (status, leaks, permitted) and nobody else does, for several spellings and for
+    IPv4, IPv6 and IPv4-mapped IPv6 clients *)
 Example hypotheses_satisfiable :
   (forall t c, w_fs t = Some c -> contains_sub W_SECRET c = true -> guarded t c = true) /\
   (forall s, contains_sub W_SECRET (w_err s) = false) /\
-  (forall s, PresentLine.present_parse (w_err s) = Ok None).
+  (forall args b, contains_sub W_SECRET (w_tmpl args b) = true -> contains_sub W_SECRET b = true).
 Proof. exact w_hypotheses. Qed.
 Example listed_address_is_served :
   w_summary w_history (w_run true true true w_history) =
     [ (200, true, true); (404, false, false); (200, true, true); (404, false, false);
       (404, false, false); (404, false, false); (404, false, false);
-      (404, false, false); (404, false, false); (200, false, false) ].
+      (404, false, false); (404, false, false); (200, false, false);
+      (404, false, false); (200, true, true); (404, false, false); (200, true, true);
+      (200, true, true) ].
 Proof. exact w_history_repaired. Qed.
 Example spelling_example :
   pct_encode [None; None; Some (true, true)] (B "/s.private") = B "/s%2Eprivate" /\
   pct_encode [None; Some (false, false); Some (false, false)] (B "/s.private") = B "/%73%2eprivate" /\
   mask_ok [None; None; Some (true, true)] (B "/s.private") = true.
 Proof. exact spelling_example_lemma. Qed.
+Example error_page_line_repaired :
+  w_bodies (w_run_err w_err_line true true true true w_twins) =
+    [(404, host_404_body w_err_line); (404, host_404_body w_err_line); (404, host_404_body w_err_line)].
+Proof. exact error_page_line_repaired_lemma. Qed.
+(** the file cache: a stale entry (the file was guarded when it was cached, the disk now holds a public text) and a
+    negative entry are what the server holds *)
+Example file_cache_view_example :
+  fc_view true (fun p => if beq p (B "public/a.txt") then Some (B "now public") else None)
+          [(B "public/a.txt", Some (B "!> hide")); (B "public/b.txt", None)] (B "public/a.txt") = Some (B "!> hide") /\
+  fc_view true (fun p => Some (B "on disk")) [(B "public/b.txt", None)] (B "public/b.txt") = None /\
+  fc_view false (fun p => Some (B "on disk")) [(B "public/b.txt", None)] (B "public/b.txt") = Some (B "on disk").
+Proof. vm_compute. repeat split; reflexivity. Qed.
+Example address_examples :
+  parse_ip (B "::ffff:10.0.0.1") = Some (IPv6 [0; 0; 0; 0; 0; 65535; 2560; 1]) /\
+  parse_ip (B "2001:DB8::0001") = Some (IPv6 [8193; 3512; 0; 0; 0; 0; 0; 1]) /\
+  parse_ip (B "10.0.0.01") = None /\ parse_ip (B "10.0.0.1/32") = None /\ parse_ip (B "1::2::3") = None /\
+  arg_matches W_MAPPED (B "::ffff:10.0.0.1") = true /\ arg_matches W_MAPPED (B "10.0.0.1") = false /\
+  arg_matches 1 (B "10.0.0.1") = true /\ arg_matches 1 (B "::ffff:10.0.0.1") = false /\
+  arg_matches (V4_BASE + 167772161) (B "10.0.0.1") = true.
+Proof. vm_compute. repeat split; reflexivity. Qed.
